@@ -199,6 +199,13 @@ async def history_trial(lines, cfg, eav, chunks, probe):
             out["views"] += n
             for name, v, cls, msg, where in bad:
                 out["bad"].append((f"view-raises:{v}:{cls}:{where}", name, msg))
+            # ... and once more after the loop has turned: whatever a read has deferred (purging expired messages) has now happened
+            await gw.settle(6)
+            n, bad2 = gw.read_views(gwy)
+            out["views"] += n
+            for name, v, cls, msg, where in bad2:
+                if (name, v, cls, msg, where) not in bad:
+                    out["bad"].append((f"view-raises:{v}:{cls}:{where}:on-a-second-read", name, msg))
             for inc in (False, True):
                 before = gw.engine_obs(gwy)
                 try:
@@ -216,6 +223,32 @@ async def history_trial(lines, cfg, eav, chunks, probe):
         await gw.settle(4)
         if not (gwy._this_msg is not None and gwy._this_msg._pkt is pkt):
             out["bad"].append(("packet-not-handled-afterwards", probe, ""))
+        # time passes (the system keeps talking 45 minutes, then 26 hours later): what was stored expires; views are read, the loop turns,
+        # views are read again
+        for later in (_dt.timedelta(minutes=45), _dt.timedelta(hours=26)):
+            t = t + later
+            tr = gwy._transport
+            if tr is not None:      # through the transport: its last packet is the gateway's clock
+                tr._frame_read(t.isoformat(timespec="microseconds"), probe)
+            else:
+                gwy._protocol.pkt_received(Packet.from_port(t, probe))
+            await gw.settle(4)
+            if abs((gwy._dt_now() - t).total_seconds()) > 1:
+                out["bad"].append(("harness:the-clock-did-not-advance", str(gwy._dt_now()), str(t)))
+            seen = []
+            for turn in ("after-time-passed", "after-time-passed:on-a-second-read"):
+                out["points"] += 1
+                n, bad = gw.read_views(gwy)
+                out["views"] += n
+                for name, v, cls, msg, where in bad:
+                    if (name, v, cls, msg, where) not in seen:
+                        out["bad"].append((f"view-raises:{v}:{cls}:{where}:{turn}", name, msg))
+                seen += bad
+                await gw.settle(6)
+            try:
+                gwy.get_state()
+            except Exception as err:  # noqa: BLE001
+                out["bad"].append((f"get_state-raises:{type(err).__name__}:after-time-passed", "", str(err)[:100]))
     finally:
         try:
             await gwy.stop()
@@ -274,9 +307,10 @@ def run(ctx: Ctx) -> None:
     hists = [gw.derive(rng, syss) for _ in range(n_hist)]
     hists += gw.sweep_histories(rng, syss, gw.MODES if thorough else ("lo", "hi", "rand-hi"), 4 if thorough else 6)
     hists += gw.code_sweep_histories(rng, syss, gw.MODES if thorough else ("lo", "hi", "rand-hi"))
+    hists += gw.ot_sweep_histories(rng, syss, per_hist=3 if thorough else 6)
     for i, (lines, kind, name, cfg) in enumerate(hists):
         eav = rng.random() < 0.5
-        chunks = 1 if kind in ("shape-sweep", "code-sweep") else rng.choice([1, 1, 1, 4, 8])
+        chunks = 1 if kind in ("shape-sweep", "code-sweep", "ot-sweep") else rng.choice([1, 1, 1, 4, 8])
         out, errs = gw.run_async(history_trial, lines, cfg, eav, chunks, probes[name])
         ctx.case(("history", "\n".join(lines), eav, chunks), kind != "none", f"history:{kind}")
         kinds[kind] = kinds.get(kind, 0) + 1
